@@ -13,7 +13,7 @@ import os
 from sa.cfg import cfg_of
 from sa.facts import result_sites
 from sa.guards import GuardView
-from sa.index import AnalysisError
+from sa.index import AnalysisError, own_nodes
 from sa.report import Ctx
 from sa.stutter import flag_loops_without_exit, stutter_paths
 from sa.undefined import collection_params_rebound, implicit_none_paths, iterables_consumed_twice, optional_truthiness, possibly_undefined, stride_conflicts, undefined_names, uninitialised_fields
@@ -226,6 +226,11 @@ R50_ALLOWED: dict = {
 R51_ALLOWED = {
     ("solvor/vrp.py", "regret_insertion", "rng"): "repair operators share the signature (state, rng); regret insertion is deterministic",
 }
+# the one confirmed place where a budget is deliberately lowered: what phase 1 used up is not available to phase 2
+R52_ALLOWED = {
+    ("solvor/simplex.py", "solve_lp", "max_iter"): "`max_iter -= iters`: the pivots phase 1 used are taken off the budget phase 2 gets",
+}
+BUDGET_NAMES = ("tol", "eps", "gap_tol", "time_limit", "patience")
 R46_ALLOWED = {
     ("solvor/dlx.py", "solve_exact_cover", "max_solutions"): "max_solutions=0 and max_solutions=None both mean 'no limit on the number of covers'; the three tests are `max_solutions and len(solutions) >= max_solutions`",
 }
@@ -365,7 +370,13 @@ def generic_sweeps(ctx: Ctx, stutter: bool = True, skip_stutter_modules: tuple =
                 if callee is None:
                     continue
                 params = [p_ for p_ in callee.params if p_ not in ("self", "cls")]
+                local_defs = {x_.name for x_ in f.node.body if isinstance(x_, (ast.FunctionDef, ast.AsyncFunctionDef))}
                 for a, p_ in list(zip(c.args, params)) + [(k.value, k.arg) for k in c.keywords if k.arg]:
+                    if isinstance(a, ast.Name) and a.id != p_ and len(p_) >= 3 and p_ in scope and a.id in local_defs and callee.module is f.module:
+                        # the caller's own callable of that name is in scope and a local wrapper around it is handed on
+                        n_sel += 1
+                        ctx.ob(g + "8", "R42 SAME-NAME-FORWARDING", f, f"`{callee.name}` receives the caller's own `{p_}` for its parameter `{p_}`", False, f"`{ast.unparse(c)[:50]}..` passes the local function `{a.id}` although `{p_}` is in scope: the callee reads the callable's answers by the contract of `{p_}` (None from a pricing function means 'no improving column exists'), a wrapper that filters or rewrites them changes what they prove", node=c)
+                        continue
                     if not (isinstance(a, ast.Name) and a.id != p_ and len(p_) >= 3 and p_ in scope and a.id in scope):
                         continue
                     if (m.rel, f.qualname, a.id, p_) in R42_ALLOWED:
@@ -512,6 +523,40 @@ def generic_sweeps(ctx: Ctx, stutter: bool = True, skip_stutter_modules: tuple =
                 n_unread += 1
                 ctx.ob(g + "16", "R51 OPTION-READ", f, f"parameter `{pname}` is read somewhere in the function", False, "the caller's value has no effect: the routine answers for a default (a tolerance, a limit, a direction) the caller did not ask for", node=f.node)
     ctx.ob(g + "16", "R51 OPTION-READ", None, "every parameter of the public functions of the anchor files is read", n_unread == 0, "", rel=mods[0].rel, fname="<anchor files>")
+    # R52: a budget or tolerance the caller set is the one the routine (and whatever it forwards it to) works with: the
+    # parameter is never rebound.  A budget lowered "because the search cannot need more" makes the callee report
+    # MAX_ITER where it would have proved its verdict on the next step.
+    n_budget = 0
+    for m in mods:
+        for q in sorted(m.funcs):
+            f = m.funcs[q]
+            if f.parent is not None or f.node.name.startswith("_"):
+                continue
+            a_ = f.node.args
+            budgets = {x_.arg for x_ in a_.posonlyargs + a_.args + a_.kwonlyargs if x_.arg.startswith("max_") or x_.arg in BUDGET_NAMES}
+            if not budgets:
+                continue
+            for n_ in own_nodes(f.node):
+                tg_ = []
+                if isinstance(n_, ast.Assign):
+                    tg_ = [e_ for t_ in n_.targets for e_ in (t_.elts if isinstance(t_, ast.Tuple) else [t_])]
+                elif isinstance(n_, (ast.AugAssign, ast.AnnAssign)):
+                    tg_ = [n_.target]
+                elif isinstance(n_, ast.NamedExpr):
+                    tg_ = [n_.target]
+                for t_ in tg_:
+                    if isinstance(t_, ast.Name) and t_.id in budgets:
+                        key = (m.rel, f.qualname, t_.id)
+                        if key in R52_ALLOWED:
+                            ctx.ob(g + "17", "R52 BUDGET-PASSTHROUGH", f, f"`{t_.id}` rebound", False, R52_ALLOWED[key], node=n_, severity="note")
+                            continue
+                        # `x = default if x is None else x` and the like only fill in a default
+                        v_ = getattr(n_, "value", None)
+                        if isinstance(n_, ast.Assign) and isinstance(v_, ast.IfExp) and "None" in ast.unparse(v_.test) and t_.id in {y_.id for y_ in ast.walk(v_) if isinstance(y_, ast.Name)}:
+                            continue
+                        n_budget += 1
+                        ctx.ob(g + "17", "R52 BUDGET-PASSTHROUGH", f, f"budget / tolerance parameter `{t_.id}` is never rebound", False, f"`{ast.unparse(n_).splitlines()[0][:80]}`: from here on the routine - and every routine the value is forwarded to - works with another limit than the caller's; a budget cut to what the search 'cannot exceed' ends in MAX_ITER on the very step that would have emptied the frontier or reached the goal", node=n_)
+    ctx.ob(g + "17", "R52 BUDGET-PASSTHROUGH", None, "no public function of the anchor files rebinds a budget or tolerance parameter", n_budget == 0, "", rel=mods[0].rel, fname="<anchor files>")
     ctx.ob(g + "15", "R50 PROBLEM-DATA-PASSTHROUGH", None, "no public function of the anchor files replaces a collection parameter by a filtered or rebuilt version of it", n_rebound == 0, "", rel=mods[0].rel, fname="<anchor files>")
     infrastructure(ctx, g + "7")
     validators_used(ctx, mods, g + "7")
